@@ -81,7 +81,7 @@ def facts_for(config, repo='/repo', target_dir=None, log=None):
     h = source_hash(repo)
     tag = hashlib.sha256(os.path.abspath(repo).encode()).hexdigest()[:6] if os.path.abspath(repo) != '/repo' else 'repo'
     fdir = os.path.join(FACTS, '%s-%s-%s' % (config, tag, h))
-    lock = open(os.path.join(FACTS, '.lock-%s' % config), 'w')
+    lock = open(os.path.join(FACTS, '.lock-%s-%s' % (config, tag)), 'w')
     fcntl.flock(lock, fcntl.LOCK_EX)
     try:
         done = os.path.join(fdir, 'DONE')
